@@ -82,6 +82,44 @@ pub fn dispatch(a: &[String]) -> String {
         format!("{}", again) == format!("{}", c)
       )
     }
+    #[cfg(dmntk_verif_ws)]
+    "workspace" => {
+      // ops: add:<ns>:<name>:<builds> | replace:.. | remove:<ns>:<name> | clear | deploy ; prints every result and the final indexes
+      let mut ws = dmntk_workspace::Workspace::new(None);
+      let mut results = vec![];
+      for op in &a[1..] {
+        let p: Vec<&str> = op.split(':').collect();
+        match p[0] {
+          "add" | "replace" => {
+            let body = if p[3] == "1" { "<literalExpression><text>1</text></literalExpression>" } else { "" };
+            let xml = format!(
+              r#"<?xml version="1.0" encoding="UTF-8"?><definitions namespace="ns{}" name="name{}" id="_m" xmlns="https://www.omg.org/spec/DMN/20191111/MODEL/"><decision name="d" id="_d"><variable name="d"/>{}</decision></definitions>"#,
+              p[1], p[2], body
+            );
+            match dmntk_model::parse(&xml) {
+              Ok(defs) => {
+                let r = if p[0] == "add" { ws.add(defs) } else { ws.replace(defs) };
+                results.push(if r.is_ok() { "ok" } else { "err" });
+              }
+              Err(_) => results.push("parse-error"),
+            }
+          }
+          "remove" => {
+            ws.remove(&format!("ns{}", p[1]), &format!("name{}", p[2]));
+            results.push("ok");
+          }
+          "clear" => {
+            ws.clear();
+            results.push("ok");
+          }
+          "deploy" => {
+            results.push(if ws.deploy().is_ok() { "ok" } else { "err" });
+          }
+          _ => results.push("?"),
+        }
+      }
+      format!("results={} {}", results.join(","), ws.verif_dump())
+    }
     _ => format!("UNKNOWN-COMMAND {}", a[0]),
   }
 }
